@@ -22,7 +22,8 @@ import traceback
 VERIF = os.path.dirname(os.path.dirname(os.path.abspath(__file__)))
 REPO = os.environ.get("VERIF_REPO", "/repo")
 COQDIR = os.environ.get("VERIF_COQDIR", os.path.join(VERIF, "coq"))   # a scratch copy can be used while developing proofs
-BUILD = os.path.join(VERIF, "build")
+REPLAYS = os.path.join(os.environ["VERIF_BUILD"], "replays") if os.environ.get("VERIF_BUILD") else os.path.join(VERIF, "replays")
+BUILD = os.environ.get("VERIF_BUILD") or os.path.join(VERIF, "build")   # VERIF_BUILD: separate scratch area for parallel runs against scratch worktrees
 ONE = 8000  # model units per 1.0 of the library
 SHARD = 400
 COQC_TIMEOUT = 900
@@ -344,8 +345,14 @@ def proof_stage(prop):
 def gen_stage(prop, targets):
     """translation tie (tools/py2coq.py): regenerate the Gallina text of a few decision kernels from the CURRENT source of
     VERIF_REPO and re-check the hand-written equivalence lemmas (coq/gen_equiv/Equiv_<t>.v) against it.
-    returns dict(ok, targets, detail)"""
-    res = {"ok": True, "targets": list(targets), "detail": "", "lemmas": 0}
+    Two ways for the tie to be missing on a tree, treated differently (DESIGN.md 2.6b):
+      * the source of a kernel is outside the translator's subset (fail-closed `Unsupported`): the tie is UNAVAILABLE for that kernel;
+        the property is then decided by the hand-written model + correspondence alone, as it is for all the code that is
+        not translated - a note, not a violation;
+      * the kernel is translated but Coq no longer proves it equal to the model's definition: a broken proof obligation -
+        a violation (with `no-failing-input-found` when the correspondence run finds no failing input).
+    returns dict(ok, targets, detail, lemmas, unavailable)"""
+    res = {"ok": True, "targets": list(targets), "detail": "", "lemmas": 0, "unavailable": []}
     if not targets:
         return res
     gdir = os.path.join(BUILD, "gen", prop)
@@ -355,12 +362,19 @@ def gen_stage(prop, targets):
     p = subprocess.run(["/venv/bin/python", os.path.join(VERIF, "tools", "py2coq.py"), repo, gdir] + list(targets),
                        capture_output=True, text=True)
     details = []
-    if p.returncode != 0:
-        res["ok"] = False
-        details.append("translator: " + (p.stdout + p.stderr).strip()[-1200:])
+    said = {}
+    for line in (p.stdout + p.stderr).splitlines():
+        m = re.match(r"py2coq: (\w+): NOT TRANSLATABLE: (.*)", line)
+        if m:
+            said[m.group(1)] = m.group(2)
     for t in targets:
         gen = os.path.join(gdir, f"Gen_{t}.v")
         if not os.path.exists(gen):
+            if t in said:
+                res["unavailable"].append({"kernel": t, "why": said[t][:300]})
+            else:     # the translator itself failed in an unexpected way: that is a broken tool, not a property of the source
+                res["ok"] = False
+                details.append(f"translator crashed on {t}: " + (p.stdout + p.stderr).strip()[-900:])
             continue
         eq_src = os.path.join(COQDIR, "gen_equiv", f"Equiv_{t}.v")
         eq = os.path.join(gdir, f"Equiv_{t}.v")
@@ -402,7 +416,7 @@ def run_check(prop, suites, tier, seed, level_note, trusted_extra=(), replay=Non
     shutil.rmtree(workdir, ignore_errors=True)
     os.makedirs(workdir, exist_ok=True)
     os.makedirs(os.path.join(VERIF, "evidence"), exist_ok=True)
-    os.makedirs(os.path.join(VERIF, "replays", prop), exist_ok=True)
+    os.makedirs(os.path.join(REPLAYS, prop), exist_ok=True)
     known = load_known()
     violations = []       # (kind, suite, case, out, extra)
     known_hits = {}
@@ -410,9 +424,14 @@ def run_check(prop, suites, tier, seed, level_note, trusted_extra=(), replay=Non
     proof = proof_stage(prop)
     if not proof["ok"]:
         violations.append(("proof", None, None, None, proof["detail"]))
-    gen = gen_stage(prop, gen_targets) if replay is None else {"ok": True, "targets": [], "detail": "", "lemmas": 0}
+    gen = gen_stage(prop, gen_targets) if replay is None else {"ok": True, "targets": [], "detail": "", "lemmas": 0, "unavailable": []}
     if not gen["ok"]:
         violations.append(("translation", None, None, None, gen["detail"]))
+    for u in gen["unavailable"]:
+        msg = (f"translation tie unavailable for kernel {u['kernel']} on this tree (source outside the translator's subset: {u['why']}); "
+               f"the property is decided by the hand-written model + correspondence alone on this run")
+        notes.append(msg)
+        print(f"NOTE property={prop} {msg}")
     total = 0
     distinct = set()
     samples = []
@@ -490,7 +509,7 @@ def run_check(prop, suites, tier, seed, level_note, trusted_extra=(), replay=Non
         other_v = [v for v in violations if v[0] != "spec"]
         chosen = (spec_v[:3] if spec_v else []) + ([] if spec_v else other_v[:3])
         for k, (kind, suite, c, o, extra) in enumerate(chosen):
-            path = os.path.join(VERIF, "replays", prop, f"{seed}-{k}.json")
+            path = os.path.join(REPLAYS, prop, f"{seed}-{k}.json")
             rep = {"property": prop, "kind": kind, "seed": seed, "tier": tier}
             if suite is not None:
                 rep["suite"] = suite.name
@@ -533,7 +552,7 @@ def run_check(prop, suites, tier, seed, level_note, trusted_extra=(), replay=Non
                              "IEEE-754 exactness on the 1/8000 dyadic grid"] + list(trusted_extra),
             "theorems": proof["theorems"],
             "translation_tie": {"kernels_regenerated_from_source": gen["targets"], "equivalence_lemmas_rechecked": gen["lemmas"],
-                                "ok": gen["ok"]},
+                                "ok": gen["ok"], "unavailable_on_this_tree": gen["unavailable"]},
             "evaluations": total, "distinct_nontrivial": len(distinct),
             "rule": rule, "samples": samples, "per_suite": per_suite, "input_distribution": stats,
             "exhaustive": bool(exhaustive and total > 0),
